@@ -419,7 +419,9 @@ theorem asm_fv : ∀ (v : FvI), wfFv v = true → ∀ (off : Nat) (rz : Bool) (s
             endFiles (preLen blocks ext) files + free := by simp [treeFv, Fv.info]
         have hi2 : (treeFv (.ffs zv v3 attrs rev rsv blocks ext files free) off rz).info.dataOffset =
             preLen blocks ext := by simp [treeFv, Fv.info]
-        rw [hi1, hi2, hlen, if_neg (by omega), if_neg (by omega), htake, hp1]
+        have hi3 : (treeFv (.ffs zv v3 attrs rev rsv blocks ext files free) off rz).info.blocks.isEmpty = false := by
+          simp [treeFv, Fv.info, hblk]
+        rw [hi1, hi2, hi3, hlen, if_neg (by omega), if_neg (by decide), if_neg (by omega), htake, hp1]
         have hmap : List.map (fun f => (f.info.attrs, f.buf)) fs' =
             List.map (fun f => (storedAttrs f, serFile f)) files := hb1
         rw [hmap, hplace]
